@@ -119,6 +119,37 @@ _sn = Derived("shared-name")
 own = [k[0].__name__ for k, v in list(P.Rule._obj_map.items()) if v is _sn]
 if "Base2" in own or ends(Derived("shared-name"), "from-base2") != "gerr":
     viol.append("derived class resolves 'shared-name' to its parent grammar class's rule")
+
+
+# two grammar classes compiling rules at overlapping times: while ReA is half-way through compiling `re-top` (it has just
+# created its rule `re-trigger`), ReB compiles a rule of its own.  Each class must end up with exactly its own rules.
+class ReB(P.Rule):
+    pass
+
+
+class ReA(P.Rule):
+    _fired = False
+
+    def __init__(self, name, definition=None):
+        super().__init__(name, definition)
+        if name.casefold() == "re-trigger" and not ReA._fired:
+            ReA._fired = True
+            ReB.create('re-other = "y" DIGIT')
+
+
+try:
+    ReA.create('re-top = "x" re-trigger "z" re-more')
+    ReA.create('re-trigger = "t"')
+    ReA.create('re-more = "m"')
+except Exception as e:  # noqa
+    viol.append("overlapping compilation in two grammar classes raised %s" % type(e).__name__)
+_ra = sorted(r.name for r in ReA.rules())
+_rb = sorted(r.name for r in ReB.rules())
+if _ra != ["re-more", "re-top", "re-trigger"] or _rb != ["re-other"]:
+    viol.append("overlapping compilation in two grammar classes: ReA has rules %r, ReB has rules %r" % (_ra, _rb))
+elif ends(ReA("re-top"), "xtzm") != [4] or ends(ReB("re-other"), "y7") != [2]:
+    viol.append("overlapping compilation in two grammar classes: ReA('re-top') on 'xtzm' gives %r, ReB('re-other') on 'y7' gives %r"
+                % (ends(ReA("re-top"), "xtzm"), ends(ReB("re-other"), "y7")))
 before = snapshot()
 
 
